@@ -271,7 +271,12 @@ impl Gen {
             v.push(Step::HSeek { slot, from: SeekFrom::End(0) });
         }
         if size > 0 || rng.chance(1, 2) {
-            v.push(Step::HWriteAll { slot, len: size as usize });
+            if how != OpenHow::Open && rng.chance(1, 8) {
+                // a stream that is text from end to end (read back with read_to_string)
+                v.push(Step::HWriteTag { slot, len: size as usize, tag: crate::engine::UTF8_TAG });
+            } else {
+                v.push(Step::HWriteAll { slot, len: size as usize });
+            }
         }
         v.push(Step::HClose { slot });
         v
@@ -435,7 +440,7 @@ impl Gen {
                     }
                     Op::SetClsid(self.decorate(rng, st), c)
                 }
-                1 => Op::SetState(p, rng.next_u32()),
+                1 => Op::SetState(p, if rng.chance(1, 3) { *rng.pick(&[0xFFFF_FFFFu32, 0x8000_0000, 1, 0x7FFF_FFFF, 0xFFFF_0000]) } else { rng.next_u32() }),
                 2 => Op::SetCreated(p, pick_time_ns(rng)),
                 3 => Op::SetModified(p, pick_time_ns(rng)),
                 _ => Op::SetState(p, 0),
